@@ -58,7 +58,11 @@ func c19HttpStale(r *Run) {
 				continue
 			}
 		case "failedwrite":
-			stale.Write(done, env) // fails and releases the address
+			// fails for real (connection refused) and releases the address; a write its caller gave up on
+			// would not (repair 26)
+			wctx, wcancel := context.WithTimeout(context.Background(), hangTimeout)
+			stale.Write(wctx, env)
+			wcancel()
 		}
 		fresh := node.goh.NewConnection(addr)
 		call := func(what string, f func() error) bool {
@@ -138,8 +142,6 @@ func c19HttpTable(r *Run) {
 		var objs []goat.RpcReadWriter
 		var items, outs []string
 		idledOut := 0 // objects created before the last idle-out: their readers fail from then on
-		done, cancelDone := context.WithCancel(context.Background())
-		cancelDone()
 		length := 2 + rng.Intn(r.Scale(8, 14))
 		ok := true
 		for k := 0; k < length && ok; k++ {
@@ -202,7 +204,11 @@ func c19HttpTable(r *Run) {
 				var pan any
 				ret := within(hangTimeout, func() {
 					defer func() { pan = recover() }()
-					err = objs[j].Write(done, &Rpc{Id: 1, Header: &goatorepo.RequestHeader{Method: "/svc/m", Source: "me", Destination: "x"}})
+					// a REAL failure (nobody listens on ports 1 and 2: connection refused) under a live context; a
+					// write its caller gave up on says nothing about the connection (repair 26)
+					wctx, wcancel := context.WithTimeout(context.Background(), hangTimeout)
+					defer wcancel()
+					err = objs[j].Write(wctx, &Rpc{Id: 1, Header: &goatorepo.RequestHeader{Method: "/svc/m", Source: "me", Destination: "x"}})
 				})
 				out := "err"
 				switch {
@@ -212,7 +218,7 @@ func c19HttpTable(r *Run) {
 					ok = false
 				case !ret:
 					out = "hang"
-					r.Violate("http.table.hang", "ops", "a Write with a finished context did not return", strings.Join(append(items, item), " "), goroutineDump(), nil)
+					r.Violate("http.table.hang", "ops", "a Write to an address where nobody listens did not return", strings.Join(append(items, item), " "), goroutineDump(), nil)
 					ok = false
 				case err == nil:
 					out = "nil"
